@@ -26,6 +26,7 @@ def tokenise (ws : List String) : Option (List Tok × Names) :=
     else match w with
       | "(" => some (ts ++ [.lp], nm) | ")" => some (ts ++ [.rp], nm) | "[" => some (ts ++ [.lb], nm) | "]" => some (ts ++ [.rb], nm)
       | "{" => some (ts ++ [.lc], nm) | "}" => some (ts ++ [.rc], nm) | "," => some (ts ++ [.comma], nm) | ";" => some (ts ++ [.semi], nm)
+      | "." => some (ts ++ [.dot], nm) | "swz" => some (ts ++ [.swz], nm) | "|" => some (ts ++ [.bar], nm)
       | "_" => some (ts ++ [.sp], nm) | ":" => some (ts ++ [.colon], nm) | ".." => some (ts ++ [.dots false], nm) | "..=" => some (ts ++ [.dots true], nm)
       | "neg" => some (ts ++ [.dash], nm) | "sub" => some (ts ++ [.dash], nm) | "not" => some (ts ++ [.bang], nm) | "tr" => some (ts ++ [.quote], nm)
       | "~" => some (ts ++ [.tilde], nm) | ":=" => some (ts ++ [.define], nm) | "=" => some (ts ++ [.assign], nm) | "NL" => some (ts ++ [.nl], nm)
@@ -44,16 +45,25 @@ def opName (o : Op) : String := (opTable.getD o.name ("?", "?", 0)).1
 
 def sp (xs : List String) : String := " ".intercalate xs
 
+/-- a kind annotation as the concatenation of its tokens' texts (what the harness prints): the punctuation
+    between the tokens is not part of any token -/
+def kindToks (k : String) : String := String.ofList (k.toList.filter (fun c => c.isAlphanum))
+
 mutual
 /-- the tree as the s-expression harness/src/c08s.rs writes for the real tree -/
 partial def sxF (nm : Names) : Fac → String
   | .lit n => nm.lits.getD n "?"
   | .var n => nm.ids.getD n "?"
-  | .call f args => if args.isEmpty then "(call " ++ nm.ids.getD f "?" ++ ")" else "(call " ++ nm.ids.getD f "?" ++ " " ++ sp (args.map (sxE nm)) ++ ")"
+  | .call f args => if args.isEmpty then "(call " ++ nm.ids.getD f "?" ++ ")" else "(call " ++ nm.ids.getD f "?" ++ " " ++ sp (args.map (sxA nm)) ++ ")"
   | .mat rows => if rows.isEmpty then "(mat)" else "(mat " ++ sp (rows.map (fun r => "(row " ++ sp (r.map (sxE nm)) ++ ")")) ++ ")"
   | .tup es => if es.isEmpty then "(tup)" else "(tup " ++ sp (es.map (sxE nm)) ++ ")"
   | .set es => if es.isEmpty then "(set)" else "(set " ++ sp (es.map (sxE nm)) ++ ")"
-  | .slice x subs => "(slice " ++ nm.ids.getD x "?" ++ " " ++ sp (subs.map (sxS nm)) ++ ")"
+  | .recd bs => "(rec " ++ sp (bs.map (fun b => match b with
+      | .mk x k e => "(bind " ++ nm.ids.getD x "?" ++ " " ++ (match k with | some k => kindToks (nm.kinds.getD k "?") | none => "-") ++ " " ++ sxE nm e ++ ")")) ++ ")"
+  | .map ms => if ms.isEmpty then "(map)" else "(map " ++ sp (ms.map (fun m => match m with | .mk k v => "(kv " ++ sxE nm k ++ " " ++ sxE nm v ++ ")")) ++ ")"
+  | .tbl hdr rows => "(tbl " ++ sp (hdr.map (fun f => "(fld " ++ nm.ids.getD f.1 "?" ++ " " ++ kindToks (nm.kinds.getD f.2 "?") ++ ")")) ++ " " ++
+      sp (rows.map (fun r => "(row " ++ sp (r.map (sxE nm)) ++ ")")) ++ ")"
+  | .slice x sels => "(slice " ++ nm.ids.getD x "?" ++ " " ++ sp (sels.map (sxL nm)) ++ ")"
   | .paren t => "(paren " ++ sxT nm t ++ ")"
   | .neg f => "(neg " ++ sxF nm f ++ ")"
   | .not f => "(not " ++ sxF nm f ++ ")"
@@ -68,31 +78,42 @@ partial def sxE (nm : Names) : Ex Fac → String
 partial def sxS (nm : Names) : Syntax.Sub Fac → String
   | .all => ":"
   | .ex e => sxE nm e
+partial def sxL (nm : Names) : Syntax.Sel Fac → String
+  | .bracket ss => "(br " ++ sp (ss.map (sxS nm)) ++ ")"
+  | .brace ss => "(bc " ++ sp (ss.map (sxS nm)) ++ ")"
+  | .dot y => "(dot " ++ nm.ids.getD y "?" ++ ")"
+  | .dotInt k => "(doti " ++ nm.lits.getD k "?" ++ ")"
+  | .swizzle y ys => "(swz " ++ sp ((y :: ys).map (fun z => nm.ids.getD z "?")) ++ ")"
+partial def sxA (nm : Names) : Syntax.Arg Fac → String
+  | .pos e => sxE nm e
+  | .named x e => "(named " ++ nm.ids.getD x "?" ++ " " ++ sxE nm e ++ ")"
 end
-
-/-- a kind annotation as the concatenation of its tokens' texts (what the harness prints): the punctuation
-    between the tokens is not part of any token -/
-def kindToks (k : String) : String := String.ofList (k.toList.filter (fun c => c.isAlphanum))
 
 def sxStmt (nm : Names) : Stmt → String
   | .define mu x k e => "(def " ++ (if mu then "1" else "0") ++ " " ++ nm.ids.getD x "?" ++ " " ++
       (match k with | some k => kindToks (nm.kinds.getD k "?") | none => "-") ++ " " ++ sxE nm e ++ ")"
-  | .assign x subs e => "(asg " ++ nm.ids.getD x "?" ++ " [" ++ sp (subs.map (sxS nm)) ++ "] " ++ sxE nm e ++ ")"
-  | .opAssign x subs k e => "(opa " ++ toString k ++ " " ++ nm.ids.getD x "?" ++ " [" ++ sp (subs.map (sxS nm)) ++ "] " ++ sxE nm e ++ ")"
+  | .assign x sels e => "(asg " ++ nm.ids.getD x "?" ++ " [" ++ sp (sels.map (sxL nm)) ++ "] " ++ sxE nm e ++ ")"
+  | .opAssign x sels k e => "(opa " ++ toString k ++ " " ++ nm.ids.getD x "?" ++ " [" ++ sp (sels.map (sxL nm)) ++ "] " ++ sxE nm e ++ ")"
 
 /-- the formatter's spelling of a token and the spacing around it: operators between single spaces,
-    `, ` in call arguments and sets, `,` in tuples and subscripts, `; ` between matrix rows -/
+    `, ` in call arguments, sets, records and maps, `: ` after an argument name, a binding name and a map key, `, ` in
+    tuples and subscripts, `,` (no space) inside a swizzle, nothing between the subscripts of a chain, `; ` between matrix rows, a table as `|a<k> b<k>| e e | e e |`, `{:}` for the empty map -/
 def opAssignSym (k : Nat) : String := ["+=", "-=", "*=", "/=", "^="].getD k "?="
 
 mutual
 partial def txF (nm : Names) : Fac → String
   | .lit n => nm.lits.getD n "?"
   | .var n => nm.ids.getD n "?"
-  | .call f args => nm.ids.getD f "?" ++ "(" ++ ", ".intercalate (args.map (txE nm)) ++ ")"
+  | .call f args => nm.ids.getD f "?" ++ "(" ++ ", ".intercalate (args.map (txA nm)) ++ ")"
   | .mat rows => "[" ++ "; ".intercalate (rows.map (fun r => " ".intercalate (r.map (txE nm)))) ++ "]"
   | .tup es => "(" ++ ", ".intercalate (es.map (txE nm)) ++ ")"
   | .set es => "{" ++ ", ".intercalate (es.map (txE nm)) ++ "}"
-  | .slice x subs => nm.ids.getD x "?" ++ "[" ++ ", ".intercalate (subs.map (txS nm)) ++ "]"
+  | .recd bs => "{" ++ ", ".intercalate (bs.map (fun b => match b with
+      | .mk x k e => nm.ids.getD x "?" ++ (match k with | some k => "<" ++ nm.kinds.getD k "?" ++ ">" | none => "") ++ ": " ++ txE nm e)) ++ "}"
+  | .map ms => if ms.isEmpty then "{:}" else "{" ++ ", ".intercalate (ms.map (fun m => match m with | .mk k v => txE nm k ++ ": " ++ txE nm v)) ++ "}"
+  | .tbl hdr rows => "|" ++ " ".intercalate (hdr.map (fun f => nm.ids.getD f.1 "?" ++ "<" ++ nm.kinds.getD f.2 "?" ++ ">")) ++ "| " ++
+      " | ".intercalate (rows.map (fun r => " ".intercalate (r.map (txE nm)))) ++ " |"
+  | .slice x sels => nm.ids.getD x "?" ++ "".intercalate (sels.map (txL nm))
   | .paren t => "(" ++ txT nm t ++ ")"
   | .neg f => "-" ++ txF nm f
   | .not f => "!" ++ txF nm f
@@ -107,10 +128,19 @@ partial def txE (nm : Names) : Ex Fac → String
 partial def txS (nm : Names) : Syntax.Sub Fac → String
   | .all => ":"
   | .ex e => txE nm e
+partial def txL (nm : Names) : Syntax.Sel Fac → String
+  | .bracket ss => "[" ++ ", ".intercalate (ss.map (txS nm)) ++ "]"
+  | .brace ss => "{" ++ ", ".intercalate (ss.map (txS nm)) ++ "}"
+  | .dot y => "." ++ nm.ids.getD y "?"
+  | .dotInt k => "." ++ nm.lits.getD k "?"
+  | .swizzle y ys => "." ++ ",".intercalate ((y :: ys).map (fun z => nm.ids.getD z "?"))
+partial def txA (nm : Names) : Syntax.Arg Fac → String
+  | .pos e => txE nm e
+  | .named x e => nm.ids.getD x "?" ++ ": " ++ txE nm e
 end
 
-def txTarget (nm : Names) (x : Nat) (subs : List (Syntax.Sub Fac)) : String :=
-  nm.ids.getD x "?" ++ (if subs.isEmpty then "" else "[" ++ ", ".intercalate (subs.map (txS nm)) ++ "]")
+def txTarget (nm : Names) (x : Nat) (sels : List (Syntax.Sel Fac)) : String :=
+  nm.ids.getD x "?" ++ "".intercalate (sels.map (txL nm))
 
 def txStmt (nm : Names) : Stmt → String
   | .define mu x k e => (if mu then "~" else "") ++ nm.ids.getD x "?" ++ (match k with | some k => "<" ++ nm.kinds.getD k "?" ++ ">" | none => "") ++ " := " ++ txE nm e
